@@ -95,19 +95,22 @@ PROPERTIES = {
     },
     "C14": {
         "level": "exploration",
-        "classes": ["TSAN_RACE", "ASM_GLOBAL_RACE", "PROCESS_STATE_RACE", "DIGEST_MISMATCH", "DATASET_ITEM_MISMATCH", "DATASET_WRITE_OUTSIDE", "DATASET_MODEL_DISAGREE", "UNEXPECTED_NULL"] + CRASH,
+        "classes": ["TSAN_RACE", "ASM_GLOBAL_RACE", "PROCESS_STATE_RACE", "CACHE_CHECKSUM", "DIGEST_MISMATCH", "DATASET_ITEM_MISMATCH", "DATASET_WRITE_OUTSIDE", "DATASET_MODEL_DISAGREE", "UNEXPECTED_NULL"] + CRASH,
         "rule": "seeded plans: shared cache(s)/dataset set up by the main task, then 2-4 simulated threads with own VMs of all flag sets, disjoint init_dataset ranges and private objects, run under the seeded scheduler; "
                 "a case is one (plan, schedule); distinct_nontrivial counts distinct plan shapes; distinct interleavings reported separately; "
-                "oracles: TSan happens-before reports (scheduler invisible to TSan), digests/dataset == sequential model, read-only page guards on shared data",
+                "oracles: TSan happens-before reports (scheduler invisible to TSan), digests/dataset/private-cache contents == sequential model, read-only page guards on shared data, "
+                "signal dispositions unchanged by a concurrent phase; the preempt batches additionally suspend a thread between two arbitrary instructions of a call (single-step trap after k library instructions "
+                "counted from the j-th scheduling point inside the call) - also inside hand-written assembly, JIT-emitted code and vector code the race detector cannot instrument",
         "assumptions": ["TSan sees instrumented C/C++ only; JIT-emitted code and the .S runtime are covered by results-vs-model and read-only page guards",
                         "TSan's bounded per-thread history can miss a race, never invent one; reports are accepted only if both accesses originate in librx.so",
                         "threads are serialised by the simulator: real-time overlap is replaced by happens-before analysis"],
         "expected_probes": ["shared_cache_phase", "shared_dataset_phase", "concurrent_dataset_init_phase", "ro_guard"],
         "tiers": {
-            "quick": [B("tsan-small-a", "tsan", "small-a", 1500, 45), B("plain-small-a", "plain", "small-a", 3000, 25), B("plain-small-b", "plain", "small-b", 1000, 10),
-                      B("tsan-shipped", "tsan", "shipped", 8, 30, workers=8, gate=2)],
+            "quick": [B("tsan-small-a", "tsan", "small-a", 1500, 40), B("plain-small-a", "plain", "small-a", 3000, 20), B("plain-small-b", "plain", "small-b", 1000, 8),
+                      B("preempt-small-a", "plain", "small-a", 3000, 25, mode="preempt"), B("tsan-shipped", "tsan", "shipped", 8, 30, workers=8, gate=2)],
             "thorough": [B("tsan-small-a", "tsan", "small-a", 40000, 420), B("tsan-small-b", "tsan", "small-b", 15000, 180), B("plain-small-a", "plain", "small-a", 150000, 300),
-                         B("plain-small-b", "plain", "small-b", 50000, 120), B("tsan-shipped", "tsan", "shipped", 300, 420, workers=8, gate=4), B("plain-shipped", "plain", "shipped", 300, 240, workers=8, gate=4), B("full-dataset-shipped-plain", "plain", "shipped", 2, 1200, workers=2, mode="fullshipped", gate=0, hang_s=3600),
+                         B("plain-small-b", "plain", "small-b", 50000, 120), B("preempt-small-a", "plain", "small-a", 100000, 420, mode="preempt"), B("preempt-small-b", "plain", "small-b", 30000, 120, mode="preempt"),
+                         B("preempt-shipped", "plain", "shipped", 300, 240, workers=8, mode="preempt", gate=4), B("tsan-shipped", "tsan", "shipped", 300, 420, workers=8, gate=4), B("plain-shipped", "plain", "shipped", 300, 240, workers=8, gate=4), B("full-dataset-shipped-plain", "plain", "shipped", 2, 1200, workers=2, mode="fullshipped", gate=0, hang_s=3600),
                          B("full-dataset-shipped-tsan", "tsan", "shipped", 1, 1800, workers=1, mode="fullshipped", gate=0, hang_s=3600), B("contract-audit", "assert", "small-a", 3000, 40)],
         },
     },
@@ -121,9 +124,9 @@ PROPERTIES = {
                         "the independent spec reading uses the cache's SuperscalarHash instruction lists and reciprocal table (their generation is C09/C18)"],
         "expected_probes": ["dataset_branch_lt4", "dataset_branch_mult4", "dataset_branch_tail", "dataset_last_item", "ds_items_checked", "ds_poison_checked"],
         "tiers": {
-            "quick": [B("plain-small-a", "plain", "small-a", 4000, 30), B("plain-small-b", "plain", "small-b", 1500, 10), B("keysweep-small-a", "plain", "small-a", 100000, 25, mode="keysweep"), B("tsan-small-a", "tsan", "small-a", 600, 20),
+            "quick": [B("plain-small-a", "plain", "small-a", 4000, 30), B("plain-small-b", "plain", "small-b", 1500, 10), B("keysweep-small-a", "plain", "small-a", 100000, 20, mode="keysweep"), B("preempt-small-a", "plain", "small-a", 2000, 15, mode="preempt"), B("tsan-small-a", "tsan", "small-a", 600, 20),
                       B("plain-shipped", "plain", "shipped", 64, 40, workers=8, gate=4)],
-            "thorough": [B("plain-small-a", "plain", "small-a", 150000, 300), B("plain-small-b", "plain", "small-b", 60000, 120), B("keysweep-small-a", "plain", "small-a", 1000000, 300, mode="keysweep"), B("tsan-small-a", "tsan", "small-a", 20000, 240),
+            "thorough": [B("plain-small-a", "plain", "small-a", 150000, 300), B("plain-small-b", "plain", "small-b", 60000, 120), B("keysweep-small-a", "plain", "small-a", 1000000, 300, mode="keysweep"), B("preempt-small-a", "plain", "small-a", 60000, 240, mode="preempt"), B("tsan-small-a", "tsan", "small-a", 20000, 240),
                          B("plain-shipped", "plain", "shipped", 2000, 420, workers=8, gate=8), B("full-dataset-shipped", "plain", "shipped", 3, 1500, workers=3, mode="fullshipped", gate=0, hang_s=3600),
                          B("contract-audit", "assert", "small-a", 3000, 40)],
         },
